@@ -1,4 +1,5 @@
 import KafVerif.Model.ProxyMetadata
+import KafVerif.Model.ProxyDispatch
 /-!
 C28 — Proxy metadata points clients at the proxy, topology intact.
 
@@ -587,3 +588,237 @@ example : ∃ s : Meta, cacheLookup (cacheOf s) (.lit 4) = some "t" ∧ cacheLoo
   apply KafVerif.C28.fresh_cache_agrees_on_wellformed_snapshot <;> simp [storeView]
 
 end KafVerif.ProxyMetadata
+
+/-! ## Connection level: Metadata / FindCoordinator are never forwarded (added after seeded change C28-r3-1)
+
+The theorems above are about what `handleMetadata` / `handleFindCoordinator` / `buildNotReadyResponse`
+build.  The seeded change C28-r3-1 left them alone and changed what `handleConnection` DOES when
+`handleMetadata` fails: `break` instead of `return`, so the request ran into the generic
+forward-to-backend path and the backend's own Metadata reply reached the client.  The dispatch
+model (`Model/ProxyDispatch.lean`) is the per-request switch of `handleConnection`; the theorems
+below hold for every connection state, every request sequence and every outcome of every callee. -/
+namespace KafVerif.ProxyDispatch
+
+/-- `e` is an event of a request with api key `k`. -/
+def Event.of (k : Nat) (e : Event) : Prop :=
+  e = .closed ∨ e = .localReply k ∨ e = .notReadyReply k ∨ e = .routedReply k ∨ e = .forwardSent k ∨ e = .relayedReply k
+
+theorem respondBackendError_of (k : Nat) (o : Outcomes) : ∀ e ∈ respondBackendError k o, e.of k := by
+  intro e he
+  unfold respondBackendError at he
+  split at he <;> simp at he
+  simp [he, Event.of]
+
+theorem failClose_of (k : Nat) (o : Outcomes) (pre : List Event) (hpre : ∀ e ∈ pre, e.of k) :
+    ∀ e ∈ (failClose k o pre).2, e.of k := by
+  intro e he
+  simp only [failClose, List.mem_append, List.mem_singleton] at he
+  rcases he with (h | h) | h
+  · exact hpre e h
+  · exact respondBackendError_of k o e h
+  · simp [h, Event.of]
+
+theorem localArm_of (c : Conn) (k : Nat) (o : Outcomes) : ∀ e ∈ (localArm c k o).2, e.of k := by
+  intro e he
+  unfold localArm at he
+  split at he <;> simp at he <;> simp [he, Event.of]
+
+theorem notReadyArm_of (k : Nat) (o : Outcomes) : ∀ e ∈ (notReadyArm k o).2, e.of k := by
+  intro e he
+  unfold notReadyArm at he
+  split at he
+  · simp at he; rcases he with h | h <;> simp [h, Event.of]
+  · simp at he; simp [he, Event.of]
+
+theorem routedArm_of (c : Conn) (k : Nat) (o : Outcomes) (b : Bool) : ∀ e ∈ (routedArm c k o b).2, e.of k := by
+  intro e he
+  unfold routedArm at he
+  split at he
+  · exact failClose_of k o [] (by simp) e he
+  · split at he
+    · simp at he
+    · split at he <;> simp at he <;> simp [he, Event.of]
+
+theorem forwardPath_of (c : Conn) (k : Nat) (o : Outcomes) : ∀ e ∈ (forwardPath c k o).2, e.of k := by
+  intro e he
+  unfold forwardPath at he
+  split at he
+  · exact failClose_of k o [] (by simp) e he
+  · simp only at he
+    split at he
+    · split at he <;> simp at he <;> rcases he with h | h <;> simp [h, Event.of]
+    · split at he
+      · exact failClose_of k o _ (by simp [Event.of]) e he
+      · split at he
+        · exact failClose_of k o _ (by simp [Event.of]) e he
+        · split at he <;> simp at he <;> rcases he with h | h <;> simp [h, Event.of]
+
+theorem step_of (c : Conn) (k : Nat) (o : Outcomes) : ∀ e ∈ (step c k o).2, e.of k := by
+  intro e he
+  unfold step at he
+  split at he
+  · simp at he
+  · split at he
+    · exact localArm_of c k o e he
+    · split at he
+      · exact notReadyArm_of k o e he
+      · split at he
+        · exact localArm_of c k o e he
+        · exact localArm_of c k o e he
+        · exact localArm_of c k o e he
+        · exact routedArm_of c k o _ e he
+        · exact routedArm_of c k o _ e he
+        · exact routedArm_of c k o _ e he
+        · exact forwardPath_of c k o e he
+theorem localArm_events (c : Conn) (k : Nat) (o : Outcomes) :
+    ∀ e ∈ (localArm c k o).2, e = .localReply k ∨ e = .closed := by
+  intro e he
+  unfold localArm at he
+  split at he <;> simp at he <;> simp [he]
+
+theorem notReadyArm_events (k : Nat) (o : Outcomes) :
+    ∀ e ∈ (notReadyArm k o).2, e = .notReadyReply k ∨ e = .closed := by
+  intro e he
+  unfold notReadyArm at he
+  split at he
+  · simp at he; rcases he with h | h <;> simp [h]
+  · simp at he; simp [he]
+
+theorem arm_metadata : arm 3 = .metadata := by decide
+theorem arm_findCoordinator : arm 10 = .findCoordinator := by decide
+
+/-- The Metadata / FindCoordinator arms, spelled out. -/
+theorem step_meta_eq (c : Conn) (k : Nat) (o : Outcomes) (hk : isMetaKey k = true) :
+    step c k o = if !c.isOpen then (c, []) else if !o.ready then notReadyArm k o else localArm c k o := by
+  have hk' : k = 3 ∨ k = 10 := by simpa [isMetaKey] using hk
+  rcases hk' with rfl | rfl
+  · simp [step, arm_metadata]
+  · simp [step, arm_findCoordinator]
+
+/-- A Metadata / FindCoordinator request produces only locally built replies or a close. -/
+theorem step_meta_events (c : Conn) (k : Nat) (o : Outcomes) (hk : isMetaKey k = true) :
+    ∀ e ∈ (step c k o).2, e = .localReply k ∨ e = .notReadyReply k ∨ e = .closed := by
+  intro e he
+  rw [step_meta_eq c k o hk] at he
+  split at he
+  · simp at he
+  · split at he
+    · rcases notReadyArm_events k o e he with h | h <;> simp [h]
+    · rcases localArm_events c k o e he with h | h <;> simp [h]
+
+theorem runWith_mem {st : Conn → Nat → Outcomes → Conn × List Event} {P : Event → Prop}
+    (h : ∀ c k o, ∀ e ∈ (st c k o).2, P e) (c : Conn) (reqs : List (Nat × Outcomes)) :
+    ∀ e ∈ runWith st c reqs, P e := by
+  induction reqs generalizing c with
+  | nil => simp [runWith]
+  | cons r rest ih =>
+    obtain ⟨k, o⟩ := r
+    intro e he
+    simp only [runWith, List.mem_append] at he
+    rcases he with he | he
+    · exact h c k o e he
+    · exact ih _ e he
+
+/-- The property of one event: it does not touch a backend on behalf of a Metadata /
+FindCoordinator request, and if it is a reply to one, the proxy built it. -/
+def Event.metaSafe (e : Event) : Prop :=
+  (∀ k, e.backendKey = some k → isMetaKey k = false) ∧
+  (∀ k, e.replyKey = some k → isMetaKey k = true → e.builtLocally = true)
+
+theorem step_metaSafe (c : Conn) (k : Nat) (o : Outcomes) : ∀ e ∈ (step c k o).2, e.metaSafe := by
+  intro e he
+  cases hk : isMetaKey k
+  · -- not a metadata key: every event of this request carries key k
+    have := step_of c k o e he
+    rcases this with h | h | h | h | h | h <;> subst h <;>
+      simp [Event.metaSafe, Event.backendKey, Event.replyKey, Event.builtLocally, hk]
+  · rcases step_meta_events c k o hk e he with h | h | h <;> subst h <;>
+      simp [Event.metaSafe, Event.backendKey, Event.replyKey, Event.builtLocally]
+
+/-- **C28, connection level.**  For EVERY client connection (any state it starts in), EVERY
+sequence of requests and EVERY outcome of the handlers / the store / the backends / the client
+socket: no Metadata or FindCoordinator request is ever written to a backend, no reply to one is
+relayed from or assembled from a backend, and every reply the client receives for one was built
+inside the proxy (`handleMetadata` / `handleFindCoordinator` / `buildNotReadyResponse`). -/
+theorem _root_.KafVerif.C28.metadata_never_forwarded (c : Conn) (reqs : List (Nat × Outcomes)) :
+    ∀ e ∈ run c reqs,
+      (∀ k, e.backendKey = some k → isMetaKey k = false) ∧
+      (∀ k, e.replyKey = some k → isMetaKey k = true → e.builtLocally = true) :=
+  runWith_mem (P := Event.metaSafe) step_metaSafe c reqs
+
+/-- The two arms are TERMINAL: a Metadata / FindCoordinator request on a serving connection is
+either answered locally with the connection (and its backend link) left exactly as it was, or the
+connection is closed — and it is answered iff the proxy is ready, the handler succeeded and the
+write succeeded; a not-ready proxy sends at most its not-ready reply and closes. -/
+theorem _root_.KafVerif.C28.metadata_arm_terminal (c : Conn) (k : Nat) (o : Outcomes)
+    (hk : isMetaKey k = true) (hopen : c.isOpen = true) :
+    (o.ready = true ∧ o.handlerOk = true ∧ o.writeOk = true → step c k o = (c, [.localReply k])) ∧
+    (o.ready = true ∧ ¬(o.handlerOk = true ∧ o.writeOk = true) → step c k o = (.shut, [.closed])) ∧
+    (o.ready = false → (step c k o).1 = .shut ∧
+        ((step c k o).2 = [.notReadyReply k, .closed] ∨ (step c k o).2 = [.closed])) := by
+  rw [step_meta_eq c k o hk]
+  refine ⟨?_, ?_, ?_⟩
+  · rintro ⟨h1, h2, h3⟩; simp [hopen, h1, h2, h3, localArm]
+  · rintro ⟨h1, h2⟩
+    simp only [hopen, h1, localArm]
+    simp
+    intro h; cases hw : o.writeOk <;> simp_all
+  · intro h1
+    simp only [hopen, h1, notReadyArm]
+    by_cases h : (o.notReadyOk && o.writeOk) = true <;> simp [h]
+
+/-- A Metadata / FindCoordinator request never opens (or replaces) the connection's backend link. -/
+theorem _root_.KafVerif.C28.metadata_never_opens_link (c : Conn) (k : Nat) (o : Outcomes)
+    (hk : isMetaKey k = true) : (step c k o).1.link = true → c.link = true := by
+  rw [step_meta_eq c k o hk]
+  split
+  · exact id
+  · split
+    · simp [notReadyArm, Conn.shut]
+    · unfold localArm; split <;> simp [Conn.shut]
+
+/-- `return` is final: nothing happens on a closed connection. -/
+theorem _root_.KafVerif.C28.closed_connection_is_silent (c : Conn) (reqs : List (Nat × Outcomes))
+    (h : c.isOpen = false) : run c reqs = [] := by
+  induction reqs with
+  | nil => rfl
+  | cons r rest ih =>
+    obtain ⟨k, o⟩ := r
+    simp only [run, runWith] at *
+    have : step c k o = (c, []) := by simp [step, h]
+    rw [this]; simpa using ih
+
+/-- What the client observes for a Metadata / FindCoordinator request is a locally built reply, a
+not-ready reply, or the close of the connection (nothing on an already closed one) — never a
+backend's reply. -/
+theorem _root_.KafVerif.C28.metadata_observation (c : Conn) (k : Nat) (o : Outcomes) (hk : isMetaKey k = true) :
+    observe (step c k o).2 ≠ .backendReply ∧ reachedBackend (step c k o).2 = false := by
+  rw [step_meta_eq c k o hk]
+  split
+  · simp [observe, reachedBackend]
+  · split
+    · unfold notReadyArm; split <;> simp [observe, reachedBackend]
+    · unfold localArm; split <;> simp [observe, reachedBackend]
+
+def okAll : Outcomes :=
+  { ready := true, handlerOk := true, noReply := false, notReadyOk := true, writeOk := true,
+    connectOk := true, forwardOk := true, reconnectOk := true, forward2Ok := true }
+
+/-- The seeded class (`break` instead of `return` in the Metadata error arm) violates the
+property: [ListOffsets relayed (link opened); Metadata whose handler fails] — the Metadata request is
+written to the backend link and the backend's reply is relayed to the client; on the code as it is
+the same script closes the connection. -/
+theorem _root_.KafVerif.C28.fallthrough_forwards_metadata :
+    let script := [(2, okAll), (3, { okAll with handlerOk := false })]
+    runWith stepFallthrough .fresh script
+        = [.forwardSent 2, .relayedReply 2, .forwardSent 3, .relayedReply 3] ∧
+    run .fresh script = [.forwardSent 2, .relayedReply 2, .closed] ∧
+    -- no prior relayed request, but a diallable backend:
+    runWith stepFallthrough .fresh [(3, { okAll with handlerOk := false })] = [.forwardSent 3, .relayedReply 3] := by
+  decide
+
+example : isMetaKey 3 = true ∧ isMetaKey 10 = true ∧ isMetaKey 2 = false := by decide
+example : run .fresh [(3, okAll), (10, okAll), (2, okAll), (3, { okAll with ready := false }), (3, okAll)]
+    = [.localReply 3, .localReply 10, .forwardSent 2, .relayedReply 2, .notReadyReply 3, .closed] := by decide
+
+end KafVerif.ProxyDispatch
